@@ -186,6 +186,7 @@ def textWithVars (cs : List Char) : List Item :=
     | [] => [.text acc.reverse]
     | c :: r =>
       if c = Char.ofNat 1 then .text acc.reverse :: .tag ⟨.var (vocabV false), .none, .none⟩ :: go [] r
+      else if c = Char.ofNat 3 then .text acc.reverse :: .tag ⟨.raw ['r'] .none .none false, .none, .none⟩ :: go [] r
       else go (c :: acc) r
   go [] cs
 
@@ -248,24 +249,49 @@ def field (fields : List String) (key : String) : Option String :=
 def vmark : List Char := [Char.ofNat 1]
 def bmark : List Char := [Char.ofNat 2]
 
+/-- all words over `-`, `{`, `%` with length <= n, shorter first, then in alphabet order -/
+def kernWords (n : Nat) : List (List Char) :=
+  let alpha := ['-', '{', '%']
+  let rec go : Nat → List (List Char) → List (List Char) → List (List Char)
+    | 0, _, acc => acc
+    | k + 1, level, acc =>
+      let next := level.flatMap (fun w => alpha.map (fun c => w ++ [c]))
+      go k next (acc ++ next)
+  go n [[]] [[]]
+
+def handleSeg (case : String) (fields : List String) (tlk fam segs : String) : String :=
+  match parseCfg tlk, parseFam fam, parseItems (if segs = "." then [] else segs.splitOn ";") 0 with
+  | some cfg, some d, some items =>
+    let src := itemsSrc d items
+    let res := lex cfg d (findStart d) src
+    if hasOpaque items then
+      let srcok := (field fields "src") = some (hexOf src)
+      s!"{case}\ttok={showRes res}\tspec=-\tfree=0\tgood={if goodDelims d then 1 else 0}\tsrcok={if srcok then 1 else 0}"
+    else
+    let tm := toTmpl items
+    let srcok := (field fields "src") = some (hexOf src) && unparse d tm = src
+    let free := delimFree d tm
+    s!"{case}\ttok={showRes res}\tspec={hexOf (specRender cfg vmark bmark tm)}\tfree={if free then 1 else 0}\tgood={if goodDelims d then 1 else 0}\tsrcok={if srcok then 1 else 0}"
+  | _, _, _ => s!"{case}\tbad-case"
+
 def handle (line : String) : String :=
   let fields := line.splitOn "\t"
   let case := fields.head!
   match case.splitOn " " with
-  | ["seg", tlk, fam, segs] =>
-    match parseCfg tlk, parseFam fam, parseItems (if segs = "." then [] else segs.splitOn ";") 0 with
-    | some cfg, some d, some items =>
-      let src := itemsSrc d items
-      let res := lex cfg d (findStart d) src
-      if hasOpaque items then
-        let srcok := (field fields "src") = some (hexOf src)
-        s!"{case}\ttok={showRes res}\tspec=-\tfree=0\tgood={if goodDelims d then 1 else 0}\tsrcok={if srcok then 1 else 0}"
-      else
-      let tm := toTmpl items
-      let srcok := (field fields "src") = some (hexOf src) && unparse d tm = src
-      let free := delimFree d tm
-      s!"{case}\ttok={showRes res}\tspec={hexOf (specRender cfg vmark bmark tm)}\tfree={if free then 1 else 0}\tgood={if goodDelims d then 1 else 0}\tsrcok={if srcok then 1 else 0}"
-    | _, _, _ => s!"{case}\tbad-case"
+  | ["kern", which, needle] =>
+    match unhex needle with
+    | some n =>
+      let hay := kernWords 8
+      let digit (r : Option Nat) : Char := match r with
+        | some i => if i < 10 then Char.ofNat (48 + i) else Char.ofNat (87 + i)
+        | none => '.'
+      let res := if which = "memstr" then hay.map (fun h => digit (findSub n h))
+        else hay.map (fun h => digit (findChar (n.headD ' ') h))
+      s!"{case}\tres={String.ofList res}"
+    | none => s!"{case}\tbad-case"
+  | ["entry", tlk, fam, segs] => handleSeg case fields tlk fam segs
+  | ["wrap", tlk, fam, _kind, segs] => handleSeg case fields tlk fam segs
+  | ["seg", tlk, fam, segs] => handleSeg case fields tlk fam segs
   | ["rand", tlk, fam, _src] =>
     match parseCfg tlk, parseFam fam, (field fields "src").bind unhex with
     | some cfg, some d, some src =>
